@@ -2,6 +2,7 @@ package scen
 
 import (
 	"fmt"
+	"regexp"
 	"path/filepath"
 	"strings"
 	"syscall"
@@ -38,7 +39,10 @@ type fsCtl struct {
 	partial bool
 }
 
+var backupSuffixRe = regexp.MustCompile(`gpdb-merge-backup-\d+`)
+
 func (c *fsCtl) rel(p string) string {
+	p = backupSuffixRe.ReplaceAllString(p, "gpdb-merge-backup-N") // the real suffix is a wall-clock nanosecond value
 	if r, err := filepath.Rel(c.root, p); err == nil && !strings.HasPrefix(r, "..") {
 		return r
 	}
